@@ -116,6 +116,17 @@ CLAIMS = {
         "validation. Soundness/completeness of the recursive-descent recogniser w.r.t. a declarative derivation relation is not proved. Fixes 3cd0826 (a "
         "rejected resource adds no rule) and 2e94e10 (salience out of range is an error, not a panic) in /repo.",
         tech="Lean 4 executable front-end model + theorems on the builder's effect + regenerated lexer facts (decide ties) + mutation-based differential correspondence", ref="5.C17"),
+ "C18": dict(text="Lean model of pkg/JsonResource.go function by function (Json/Translate: depth-dependent bracketing, noWrap, single-operand not, number "
+        "formatting by exact shortest-digit arithmetic, strconv.Quote) and of the meaning of a JSON rule (Json/Sem: the operator tree read directly as a syntax "
+        "tree, operands grouped as nested). Theorems: every malformed shape the property names is rejected (C18_unknown_operator, _two_keys, _empty_object, "
+        "_arity_zero, _compound_arity, _compound_operand_type, _set_arity, _call_shape, _operand_type, _missing_parts, _ruleset_all_or_nothing) and "
+        "C18_operand_wrapped (where parentheses are added). Tie: the real translator's text equals the model's byte for byte on generated documents; the model's "
+        "parse of that text equals Sem modulo grouping parentheses; and, independent of the model's parser, the real engine run on the translated text agrees with "
+        "the real engine run on the explicitly grouped meaning (outcome, facts, fired rules); name/description/salience compared with the document.",
+        note="The meaning theorem 'parse(translate j) = Sem j for every tree' is not proved (it needs the print/parse round trip of the front end); it is "
+        "validated on every run as described. encoding/json's decoding into the GruleJSON struct and unicode.IsPrint (a table; modelled for ASCII and 23 listed "
+        "code points, others are reported unmodelled) are modelled in the driver, not verified. Fixes af5d32f, 11fbd47, a61ddb2, 93e05b8, 0a50cc6 in /repo.",
+        tech="Lean 4 executable translator + meaning models, rejection theorems + byte-level correspondence + meaning check on the real engine", ref="5.C18"),
 }
 
 def main():
